@@ -156,3 +156,36 @@ Example C06_nonvacuous :
   u_from_radix_be radix [3; 7; 7] 8 = Ret (Some [255]) /\
   u_from_str_radix radix [43; 95; 49] 10 = Ret (PErr PInvalid).
 Proof. repeat split; vm_compute; reflexivity. Qed.
+
+(* ---- added by the API audit (docs/API_COVERAGE.md): `{:?}` is `{}` with the same Formatter, for
+   every flag / width / fill / alignment; the parsers' error value carries exactly the kind the
+   specification assigns to the text (for ALL byte strings and radices), and the two messages differ. *)
+From BigNum Require Import ExtraText ExtraTextProofs.
+Theorem C06_fmt_debug_u : forall fl u, canon u ->
+  u_fmt_debug radix fl u = spec_fmt FDisplay fl (val u).
+Proof. exact u_fmt_debug_spec. Qed.
+Print Assumptions C06_fmt_debug_u.
+Theorem C06_fmt_debug_i : forall fl x, icanon x ->
+  i_fmt_debug radix fl x = spec_fmt FDisplay fl (ival x).
+Proof. exact i_fmt_debug_spec. Qed.
+Print Assumptions C06_fmt_debug_i.
+Theorem C06_parse_error_value : forall s r,
+  u_from_str_radix_err radix s r = omap (fun x => err_text_of x) (spec_from_str false s r) /\
+  i_from_str_radix_err radix s r = omap (fun x => err_text_of x) (spec_from_str true s r) /\
+  parse_err_text PEmpty <> parse_err_text PInvalid.
+Proof.
+  intros; split; [apply u_from_str_radix_err_spec|split; [apply i_from_str_radix_err_spec|]].
+  intros E. apply parse_err_text_inj in E. discriminate.
+Qed.
+Print Assumptions C06_parse_error_value.
+
+(* BigInt::to_radix_be (the big-endian twin of C06_ito_radix_le had no theorem) *)
+Theorem C06_ito_radix_be : forall x r, 2 <= r <= 256 -> icanon x ->
+  i_to_radix_be radix x r = Ret (sg x, spec_to_radix_be (val (mag x)) r).
+Proof.
+  intros x r Hr Cx. unfold i_to_radix_be, ito_radix_be.
+  change (to_radix_be (k_mul radix) (k_divrem radix) (k_divdig radix) (k_to_bits radix) (k_to_inexact radix) radix (mag x) r)
+    with (u_to_radix_be radix (mag x) r).
+  rewrite C06_to_radix_be by (auto; apply Cx). reflexivity.
+Qed.
+Print Assumptions C06_ito_radix_be.
